@@ -5,6 +5,7 @@ import (
 	"math"
 
 	"github.com/smart-core-os/sc-api/go/traits"
+	"github.com/smart-core-os/sc-golang/pkg/resource"
 	"github.com/smart-core-os/sc-golang/pkg/trait/vendingpb"
 	"github.com/smart-core-os/sc-golang/pkg/trait/vendingpb/unitpb"
 	"verifrt/hx"
@@ -102,6 +103,63 @@ func vendingScenario(s *hx.Seq) {
 		}
 	}); p != nil {
 		s.Fail("options-panic WithInitialConsumable/WithInitialStock", fmt.Sprintf("constructing the model panicked: %v", p), nil)
+	}
+	// the same next to 0..10 options of the resource package (they configure both of the model's resources), given
+	// before, after or between the initial records, with one or two consumables and one to three stock records:
+	// each resource keeps ITS initial records, whatever else was configured and however many options there were
+	for k := 0; k <= 10; k++ {
+		for place := 0; place < 3; place++ {
+			for nc := 1; nc <= 2; nc++ {
+				for ns := 1; ns <= 3; ns++ {
+					name := fmt.Sprintf("options %d generic resource options (placement %d) + %d initial consumable(s) + %d initial stock record(s)", k, place, nc, ns)
+					var generic []resource.Option
+					for i := 0; i < k; i++ {
+						generic = append(generic, resource.WithNoDuplicates())
+					}
+					var cons []*traits.Consumable
+					var wantC, wantS []string
+					for i := 0; i < nc; i++ {
+						cons = append(cons, &traits.Consumable{Name: fmt.Sprintf("c%d", i)})
+						wantC = append(wantC, fmt.Sprintf("c%d", i))
+					}
+					var stock []*traits.Consumable_Stock
+					for i := 0; i < ns; i++ {
+						stock = append(stock, &traits.Consumable_Stock{Consumable: fmt.Sprintf("s%d", i)})
+						wantS = append(wantS, fmt.Sprintf("s%d", i))
+					}
+					ic, is := vendingpb.WithInitialConsumable(cons...), vendingpb.WithInitialStock(stock...)
+					var opts []resource.Option
+					switch place {
+					case 0:
+						opts = append(append(opts, generic...), ic, is)
+					case 1:
+						opts = append(append(opts, ic, is), generic...)
+					default:
+						opts = append(append(append(opts, ic), generic...), is)
+					}
+					s.Eval(1)
+					s.State(name)
+					if p := guard(func() {
+						m := vendingpb.NewModel(opts...)
+						var gotC, gotS []string
+						for _, c := range m.ListConsumables() {
+							gotC = append(gotC, c.Name)
+						}
+						for _, st := range m.ListInventory() {
+							gotS = append(gotS, st.Consumable)
+						}
+						if fmt.Sprint(gotC) != fmt.Sprint(wantC) || fmt.Sprint(gotS) != fmt.Sprint(wantS) {
+							s.Fail("options-initial-records "+name, fmt.Sprintf("consumables=%v inventory=%v; configured consumables %v and stock %v", gotC, gotS, wantC, wantS), nil)
+						}
+						if c, ok := m.GetConsumable("c0"); !ok || c.GetName() != "c0" {
+							s.Fail("options-initial-records-get "+name, fmt.Sprintf("GetConsumable(c0) = %v, %v", c, ok), nil)
+						}
+					}); p != nil {
+						s.Fail("options-panic "+name, fmt.Sprintf("a model built from these options panicked: %v", p), nil)
+					}
+				}
+			}
+		}
 	}
 	// ---- dispense: every initial stock shape x unit pair x dispense quantity, one or two dispenses
 	for _, usedPresent := range []bool{false, true} {
